@@ -305,9 +305,12 @@ def adjustDown (k R : Nat) : Nat → Nat → Nat
   | 0, s => s
   | fuel + 1, s => if s ^ k > R then adjustDown k R fuel (s - 1) else s
 
-def finalAdjust (k R s : Nat) : Nat × Nat :=
-  let s := adjustDown k R 2 s
-  (s, R - s ^ k)
+def finalOut (k R s : Nat) : Nat × Nat := (s, R - s ^ k)
+
+def finalAdjust (k R s : Nat) : Nat × Nat := finalOut k R (adjustDown k R 2 s)
+
+/-- rootrem_basecase.c:90-98: `if (U < x^nth) x--;` then the remainder. -/
+def finalAdjust1 (k R s : Nat) : Nat × Nat := finalOut k R (adjustDown k R 1 s)
 
 /-- rootrem_basecase.c:47-54 bit-by-bit improvement: clear `bit` if the power stays above U. -/
 def bcBits (nth U : Nat) : Nat → Nat → Nat → Nat → Nat × Nat × Bool
@@ -338,9 +341,8 @@ def rootremBasecase (U nth : Nat) : Nat × Nat :=
   let x0 := 2 ^ xnb - 1
   let (x, nv, done) := bcBits nth U (bitLen nth) x0 (xnb - 2) 0
   let x := if done then x else bcNewton nth U xn xnb (nv - 1) 64 x nv
-  -- done: the computed result might be one unit too large
-  let x := if x ^ nth > U then x - 1 else x
-  (x, U - x ^ nth)
+  -- done: the computed result might be one unit too large (a single test in the C)
+  finalAdjust1 nth U x
 
 /-- the `sizes[]` schedule of mpn_rootrem_internal (rootrem.c:178-196). -/
 def rrSizes (logk : Nat) : Nat → Nat → List Nat
